@@ -263,6 +263,14 @@ class StructureVisitor(ASTTemplate):
         """Get the current assignment's output dataset."""
         return self.output_datasets.get(self.current_assignment)
 
+    def _is_outermost_operand(self) -> bool:
+        """True unless an operand sub-expression of a dataset-level operator is being rendered.
+
+        Only the outermost operator of an assignment yields the assignment's output structure;
+        inner operators keep the measure names of their own operand.
+        """
+        return getattr(self, "_inner_operand_depth", 0) == 0
+
     # SQL literal conversion
 
     def _to_sql_literal(self, value: Any, type_name: str = "") -> str:
@@ -303,7 +311,11 @@ class StructureVisitor(ASTTemplate):
             if kind == "ast":
                 return f"({self.visit(val)})"
             return quote_name(node.value)
-        return f"({self.visit(node)})"
+        self._inner_operand_depth = getattr(self, "_inner_operand_depth", 0) + 1
+        try:
+            return f"({self.visit(node)})"
+        finally:
+            self._inner_operand_depth -= 1
 
     def _resolve_dataset_name(self, node: AST.AST) -> str:
         """Resolve a VarID to its actual dataset name (handles UDO params)."""
